@@ -29,7 +29,24 @@ AVOID = {
  "C17": "the range-reduction guard of `sin`, `pow` delegating to `powi`, an iterate-until-stable loop in `sqrt`, and a `while` fold in `tan`",
  "C18": "`Product`, the shift-amount reduction in `op_shift!`, `Wrapping::signum`, and `dec_str_int_to_bin` / `dec_str_frac_to_bin` in src/from_str.rs",
 }
+AVOID_R7_EXTRA = {
+ "C01": "; also `Product`", "C02": "; also the by-reference assigning operators of `Wrapping`", "C03": "; also `float.partial_cmp(&fixed)`",
+ "C04": "; also the `int_to_fixed!` row table in src/convert.rs", "C05": "; also merging the left-shift arms of `to_fixed_helper`",
+ "C06": "; also the `Wrapping` rounding forwarders", "C07": "; also the `Wrapping` forwarders", "C08": "; also the carry test `numer_hi << (128 - nbits)` of `u128::dec_to_bin`",
+ "C09": "; also `impl Display for Wrapping`", "C10": "; also the `Fixed` trait forwarders of `to_/from_ne_bytes`", "C11": "; also the `Wrapping` operator macros",
+ "C12": "; also the exit test of the Newton loop in `sqrt`", "C13": "; also the exit test of the Newton loop", "C14": "; also a small-argument shortcut using the constant `LOG2_E`",
+ "C15": "; also the overflow exit of the `exp` series", "C16": "; also a small-angle early return in `sin`", "C17": "; also a second range reduction in `cos`",
+ "C18": "; also the 128-bit multiplication carries",
+}
 THEMES = {
+ "R7": ("3. the property above is violated for SOME inputs, and the violation should be hard to stumble on: it must need something specific to manifest. "
+        "A checker is already known to (i) sweep all 8-bit and 16-bit values, (ii) for wider types use boundary values (0, +-1, +-1 ulp, min, max, powers of two and neighbours, "
+        "all-zero / all-one halves, small integers, exact multiples +-1, ties), (iii) call every public API form (operators by value / by reference / assigning, trait methods, `Wrapping` forwarders, iterator folds). "
+        "So do NOT rely on a rarely used API form, and do not touch src/wrapping.rs unless the property is about `Wrapping`. Seed the defect INSIDE one of the mechanisms listed under 'Where the property lives' above "
+        "(or a helper they call), so that it is observable at the listed observation points, and make it depend on a coincidence of VALUES or CONFIGURATION: particular middle bits of an operand, a carry/borrow between limbs, "
+        "a relation between two operands or between the value and the fractional-bit count, a fractional-bit count or integer-bit count in the middle of its range, a specific source/destination type relation, "
+        "a digit count or digit pattern, an exponent/mantissa pattern of a float, an operand band that is narrow relative to the type's range. Two cooperating edits that each look harmless are welcome. "
+        "It must nevertheless be a realistic slip, not an artificial `if x == 0x1234` trap, and it must not be limited to 8-bit or 16-bit types."),
  "R6": ("3. the property above is violated for SOME inputs, and the violation should be hard to stumble on: it must need something specific to manifest. "
         "A checker is already known to sweep all 8-bit and 16-bit values and, for wider types, boundary values (0, +-1, +-1 ulp, min, max, powers of two and neighbours, "
         "all-zero / all-one halves, small integers, exact multiples +-1), at the boundary fractional-bit counts 0, 1, 2, width/2 (+-1), width (-0, -1, -2). Aim beyond that. "
@@ -62,7 +79,11 @@ def main():
             subprocess.run(["cp", "/repo/Cargo.lock", wt + "/"])
         p = props[pid]
         text = (p["title"] + "\n\n" + p["statement"] + "\n\nQuantification: " + p["quantifier"]["text"]).strip()
-        t = t0.replace("__WT__", wt).replace("__PROP__", text).replace("__AVOID__", AVOID[pid]).replace("__EXTRA__", C17_EXTRA if pid == "C17" else "")
+        if tag >= "R7":
+            text += "\n\nWhy the existing tests cannot settle it: " + p["why_tests_cant"]
+            text += "\n\nWhere the property lives:\n" + "\n".join("- %s (%s)" % (m["name"], m["where"]) for m in p["anchors"]["mechanism"])
+            text += "\nObservation points: " + "; ".join(p["anchors"]["observe_at"])
+        t = t0.replace("__WT__", wt).replace("__PROP__", text).replace("__AVOID__", AVOID[pid] + (AVOID_R7_EXTRA.get(pid, "") if tag >= "R7" else "")).replace("__EXTRA__", C17_EXTRA if pid == "C17" else "")
         open("/tmp/wt/prompt_%s%s.txt" % (tag, pid), "w").write(t)
         print(wt)
 
